@@ -99,15 +99,15 @@ def pick (H : Hasher) (b : List Node) (k : Node) : Outcome :=
   match b with
   | [] => .none
   | [n] => .node n
-  | _ => .node (b.getD (H.inner k.repr % b.length) default)
+  | _ => .node (b.getD (H.inner (verbV k) % b.length) default)
 
 theorem pick_mem (H : Hasher) (b : List Node) (k : Node) (hne : b ≠ []) : ∃ n ∈ b, pick H b k = .node n := by
   match b, hne with
   | [n], _ => exact ⟨n, List.mem_singleton.mpr rfl, rfl⟩
   | a :: c :: rest, _ =>
-    have hlt : H.inner k.repr % (a :: c :: rest).length < (a :: c :: rest).length :=
+    have hlt : H.inner (verbV k) % (a :: c :: rest).length < (a :: c :: rest).length :=
       Nat.mod_lt _ (by simp)
-    refine ⟨(a :: c :: rest)[H.inner k.repr % (a :: c :: rest).length], List.getElem_mem hlt, ?_⟩
+    refine ⟨(a :: c :: rest)[H.inner (verbV k) % (a :: c :: rest).length], List.getElem_mem hlt, ?_⟩
     unfold pick
     simp only []
     rw [List.getD_eq_getElem?_getD, List.getElem?_eq_getElem hlt]
@@ -133,7 +133,7 @@ theorem mem_keys_iff {H : Hasher} {s : CH} {m : SMap} (hi : Inv H s m) (x : Nat)
 
 theorem get_eq {H : Hasher} {s : CH} {m : SMap} (hi : Inv H s m) (k : Node) :
     get H s k = if s.keys = [] then .none else pick H (bucket s.ring (target s.keys (H.key k.repr))) k := by
-  unfold get
+  unfold get getRest
   by_cases hk : s.keys = []
   · have : s.ring.isEmpty = true := (ring_isEmpty_iff _ hi.ring.wf).mpr ((keys_nil_iff hi).mp hk)
     simp [hk, this]
